@@ -110,6 +110,9 @@ def _seeded(seed):
         'sample_tt': lambda s: teneva.sample_tt(n, 2, seed=s),
         'anova': lambda s: teneva.anova(_grid(), _f(_grid()), 2, 1, 1e-3, seed=s),
         'anova2': lambda s: teneva.anova(_grid(), _f(_grid()), 3, 2, 1e-3, seed=s),
+        # second-order models on OTHER training sets that share (mode, index) pairs with the one above
+        'anova2.sub': lambda s: teneva.anova(_grid()[::2], _f(_grid()[::2]) * 2.0 + 1.0, 2, 2, 1e-3, seed=s),
+        'anova2.perm': lambda s: teneva.anova(_grid()[::-1], np.sin(_grid()[::-1] @ np.array([1.0, 2.0, 0.5])), 3, 2, 0., seed=s),
         'core_qr_rand': lambda s: teneva.core_qr_rand(_Y(3)[1], 2, True, seed=s),
         'core_qr_rand.rtl': lambda s: teneva.core_qr_rand(_Y(3)[1], 1, False, seed=s),
         'cross_act.dr2': lambda s: teneva.cross_act(lambda X: X[:, 0] * X[:, 1] + 1., [_Y(5), _Y(6)], _Y(7, r=1), e=1e-6,
@@ -174,6 +177,9 @@ def _defaults():
                                                                allow_swap=True, swap_tol=3, e_adap=0.01, I_vld=g3[::2], y_vld=y3[::2])),
         'als.default.vld333': lambda: teneva.als(g3, y3, space.tt([3, 3, 3], [1, 2, 2, 1], 'gen', 0, tag=5), nswp=5, I_vld=g3[1::2], y_vld=y3[1::2],
                                                  e_vld=0.05),
+        # a threshold on the validation error without validation data: nothing to compare, must run all sweeps
+        'als_func.default.evld_only': lambda: teneva.als_func(X, _f(grid), _Y(10, (3, 3, 3), 2), -1., 1., nswp=4, e_vld=0.9, thr_pow=0.),
+        'als.default.evld_only': lambda: teneva.als(grid, _f(grid), _Y(9, r=2), nswp=4, e_vld=0.9),
         'als.default.tiny': lambda: teneva.als(space.grid_array([2, 2]), np.array([1., 2., 3., 5.]), space.tt([2, 2], [1, 1, 1], 'gen', 0, tag=67), nswp=2),
         'als.default': lambda: teneva.als(grid, _f(grid), _Y(9, r=2), nswp=2),
         'als.default.vld': lambda: teneva.als(grid, _f(grid), _Y(9, r=1), nswp=3, I_vld=grid[::2], y_vld=_f(grid[::2]), e_vld=1e-2),
